@@ -262,7 +262,7 @@ fn short_history(rng: &mut Rng, ctx: &mut Ctx) -> Result<(), (Bad, Vec<String>)>
         }
         _ => World::new(),
     };
-    let hot = ["a", "b", "id", "space", "xml", "", "p", "urn:A", "A", "a ", "n0", "n1"];
+    let hot = ["a", "b", "id", "space", "xml", "", "p", "urn:A", "A", "a ", "n0", "n1", "pr\u{e9}", "\u{540d}\u{524d}"];
     let mut fresh = 0usize;
     let mut clone: Option<World> = None;
     let steps = rng.range(5, 60);
@@ -348,9 +348,21 @@ fn short_history(rng: &mut Rng, ctx: &mut Ctx) -> Result<(), (Bad, Vec<String>)>
                 // prefixes and namespaces (default namespace in scope, redeclared / undeclared below): every node
                 // name read back must be the id of its expanded name
                 let locals = ["a", "b", "id", "space", "p", "A", "title"];
-                let uris = ["urn:A", "A", "u", "a", "u v", "u ", " u"];
+                // (URIs that contain '&' and text that looks like a reference: each is written escaped exactly once)
+                let uris = ["urn:A", "A", "u", "a", "u v", "u ", " u", "a&b", "a&amp;b", "x&#65;y", "q?a=1&lt;2"];
                 // a space inside a declaration value may be written as a literal TAB or LF (attribute-value normalisation)
-                let spell = |rng: &mut Rng, u: &str| -> String { u.chars().map(|c| if c == ' ' { *rng.pick(&[' ', '\t', '\n']) } else { c }).collect() };
+                let spell = |rng: &mut Rng, u: &str| -> String {
+                    let mut out = String::new();
+                    for c in u.chars() {
+                        match c {
+                            ' ' => out.push(*rng.pick(&[' ', '\t', '\n'])),
+                            '&' => out.push_str(*rng.pick(&["&amp;", "&#38;", "&#x26;"])),
+                            '<' => out.push_str("&lt;"),
+                            c => out.push(c),
+                        }
+                    }
+                    out
+                };
                 let dflt: Option<&str> = if rng.chance(2, 3) { Some(uris[rng.below(uris.len())]) } else { None };
                 let pfx = ["p", "q", "a"][rng.below(3)];
                 let puri = uris[rng.below(uris.len())];
